@@ -435,3 +435,60 @@ func (g *Gen) dnestCase(i int) *Case {
 	}
 	return c
 }
+
+// dfuncCase enumerates every PromQL function of the parser's table (natively supported or not -
+// the distributed optimizer sees them all) with arguments of the declared types, in several
+// positions of a larger expression. Used with the plan-level `distplan` oracle only.
+func (g *Gen) dfuncCase(i int) *Case {
+	g.prof = "mixed"
+	g.maxSeries = 6
+	c := g.Case(i)
+	g.prof = "dfunc"
+	c.ID = fmt.Sprintf("dfunc-%d", i)
+	c.Profile = "dfunc"
+	names := make([]string, 0, len(parser.Functions))
+	for n := range parser.Functions {
+		names = append(names, n)
+	}
+	sort.Strings(names)
+	contexts := []string{"%s", "sum(%s)", "sum by (a) (%s)", "count without (b) (%s)", "abs(%s)", "%s + m", "-%s", "(%s)",
+		"topk(2, %s)", "max(%s) / min(m)", "clamp_min(%s, 1)", "sum(rate(m[5m])) > scalar(%s)"}
+	fn := parser.Functions[names[i%len(names)]]
+	variant := (i / len(names)) % 2
+	ctx := contexts[(i/(2*len(names)))%len(contexts)]
+	var args []string
+	for _, t := range fn.ArgTypes {
+		switch t {
+		case parser.ValueTypeVector:
+			args = append(args, g.pick("m", "m", "n{a!=\"\"}", "m offset 1m"))
+		case parser.ValueTypeMatrix:
+			args = append(args, g.pick("m[5m]", "m[1m]", "n[5m] offset 30s"))
+		case parser.ValueTypeScalar:
+			if variant == 0 {
+				args = append(args, g.pick("1", "0.5", "2"))
+			} else {
+				args = append(args, g.pick("scalar(n)", "time()", "(1)"))
+			}
+		case parser.ValueTypeString:
+			args = append(args, `"x"`)
+		}
+	}
+	if fn.Variadic != 0 && variant == 1 && len(args) > 0 {
+		// the optional arguments left out
+		min := len(fn.ArgTypes) - 1
+		if fn.Variadic > 0 {
+			min = len(fn.ArgTypes) - fn.Variadic
+		}
+		if min < 0 {
+			min = 0
+		}
+		args = args[:min]
+	}
+	c.Query = fmt.Sprintf(ctx, fn.Name+"("+strings.Join(args, ", ")+")")
+	np := 1 + i%4
+	c.Parts = make([][]int, np)
+	for s := range c.Series {
+		c.Parts[s%np] = append(c.Parts[s%np], s)
+	}
+	return c
+}
